@@ -34,6 +34,24 @@ def fixed_cases(tier):
     cases.append({"dataset": [[[1]]], "scheme": uni, "candidate": [[1]], "meta": {"family": "fixed", "kind": "int", "cand_mode": "exact"}})
     cases.append({"dataset": [[[1], [2, 3]], []], "scheme": uni, "candidate": [[3, 1], [2], [7]], "meta": {"family": "fixed", "kind": "int", "cand_mode": "superset"}})
     cases.append({"dataset": [[[1], [2, 3]]], "scheme": uni, "candidate": [], "meta": {"family": "fixed", "kind": "int", "cand_mode": "missing"}})
+    if tier == "thorough":
+        # EXHAUSTIVE small scope: every dataset of <= 2 rankings over <= 3 elements x every candidate over the universe,
+        # over the universe plus one foreign element (superset), and every candidate missing one element (refused)
+        from props import c02
+        rks = lib.all_rankings_over_subsets([0, 1, 2])
+        for i, r1 in enumerate(rks):
+            for r2 in [None] + rks[i:]:
+                raw = [r1] if r2 is None else [r1, r2]
+                elems = lib.dataset_elems(raw)
+                if not elems:
+                    continue
+                cands = [(c, "exact") for c in lib.weak_orders(elems)]
+                cands += [(c, "superset") for c in lib.weak_orders(elems + [9])[:20]]
+                cands += [(c, "missing") for c in lib.weak_orders(elems[1:])[:3]]
+                for cand, mode in cands:
+                    for sch in c02.SMALL_SCHEMES[:2]:
+                        cases.append({"dataset": raw, "scheme": sch, "candidate": cand,
+                                      "meta": {"family": "exhaustive-small", "kind": "int", "cand_mode": mode}})
     return cases
 
 
